@@ -52,6 +52,13 @@ def child(argv):
 def _spawn(args):
     modname, seeds, hashseed = args
     env = dict(os.environ)
+    if modname.endswith("c04"):  # needs the sanitizer runtime preloaded
+        sys.path.insert(0, VERIF)
+        from sim import bootstrap
+
+        logdir = os.path.join(VERIF, ".cache", "asan", "selftest-%d" % os.getpid())
+        os.makedirs(logdir, exist_ok=True)
+        env = bootstrap.asan_env(os.path.join(logdir, "log"))
     env["PYTHONHASHSEED"] = str(hashseed)
     r = subprocess.run([sys.executable, os.path.join(VERIF, "sim", "selftest.py"), "--child", modname,
                         ",".join(str(s) for s in seeds)], capture_output=True, text=True, env=env, timeout=3000)
